@@ -57,8 +57,9 @@ PARTIAL_SCOPE = ["selection_range(s) / selection_range_at_line / cut_selection /
                  "custom `pattern=` argument of find_start_of_previous_word / get_word_before_cursor not modelled",
                  "negative cursor positions, negative rows of translate_row_col_to_index and count = 0 of the word "
                  "motions are outside the property (modelled and correspondence-checked, no theorem)",
-                 "find / find_backwards with count > 1: soundness and bounds proved, 'exactly the count-th "
-                 "non-overlapping match' is correspondence-checked only (count = 1: nearest + completeness proved)",
+                 "find: soundness, nearest (count = 1) and the step count -> count+1 (nearest non-overlapping "
+                 "next match, none skipped) proved; find_backwards: soundness and nearest (count = 1) proved, "
+                 "count > 1 ordering correspondence-checked only",
                  "start/end_of_paragraph: bounds and direction proved, the exact target is correspondence-checked only",
                  "find_boundaries_of_current_word with whitespace flags: on-line/direction proved, 'one word' only "
                  "without the flags; get_word_before/under_cursor, leading_whitespace_in_current_line, "
